@@ -34,9 +34,9 @@ impl C02 {
         C02 {
             tier,
             seed,
-            n_gen: scaled(tier.pick(2_500, 120_000), scale),
-            n_comp: scaled(tier.pick(1_500, 80_000), scale),
-            n_shape: scaled(tier.pick(48, 1_600), scale),
+            n_gen: scaled(tier.pick(25_000, 600_000), scale),
+            n_comp: scaled(tier.pick(15_000, 400_000), scale),
+            n_shape: scaled(tier.pick(160, 3_200), scale),
         }
     }
 
